@@ -294,6 +294,11 @@ class Sched(object):
                         acts.append(Action("%s:timeout-contended(%s)" % (n, q.name), p, "timeout", self._mk_exc(p, _queue.Empty()), 3))
                 elif (not block) or timeout is not None:
                     acts.append(Action("%s:timeout(%s)" % (n, q.name), p, "timeout", self._mk_exc(p, _queue.Empty()), 3))
+            elif k == "qempty":
+                acts.append(Action("%s:empty(%s)=%s" % (n, op[1].name, not op[1].pipe), p, "qempty", self._mk_res(p, not op[1].pipe), 1))
+            elif k == "qfull":
+                isfull = op[1].maxsize > 0 and op[1].sem == 0
+                acts.append(Action("%s:full(%s)=%s" % (n, op[1].name, isfull), p, "qfull", self._mk_res(p, isfull), 1))
             elif k == "set":
                 acts.append(Action("%s:set(%s)" % (n, op[1].name), p, "set", self._mk_set(p, op[1]), 1))
             elif k == "clear":
@@ -636,7 +641,11 @@ class VQueue(object):
         return self.maxsize - self.sem if self.maxsize > 0 else len(self.pipe)
 
     def empty(self):
-        raise VmpError("Queue.empty not modelled")
+        # a read of shared state (CPython: not self._poll())
+        return self.sched.op("qempty", self)
+
+    def full(self):
+        return self.sched.op("qfull", self)
 
 
 class VEvent(object):
